@@ -118,3 +118,30 @@ func VerifC11_RoundTrip() {
 		verif_Assert(md2.Get(ps[i].p.ID()) != nil, "every protocol retrievable by ID after decoding")
 	}
 }
+
+// C11 (an encoding, once returned, is a value): encoding one metadata value and
+// then another leaves the first encoding's bytes as they were (no encoding
+// shares memory with package state or with a later encoding), and encoding the
+// same value again gives the same bytes.
+func VerifC11_EncodingsIndependent() {
+	mk := func() Metadata {
+		k := verif_Choose("count", 1, 2)
+		list := make([]Protocol, k)
+		for i := 0; i < k; i++ {
+			list[i] = c11mkProto(i).p
+		}
+		return Default.New(list...)
+	}
+	a, b := mk(), mk()
+	encA, err := a.MarshalBinary()
+	verif_Assume(err == nil)
+	keep := append([]byte{}, encA...)
+	encB, err := b.MarshalBinary()
+	verif_Assume(err == nil)
+	verif_Reach("both encoded")
+	verif_Assert(bytes.Equal(encA, keep), "an encoding is not changed by a later encoding of another value")
+	again, err := a.MarshalBinary()
+	verif_Assert(err == nil && bytes.Equal(again, keep), "encoding the same value again gives the same bytes")
+	againB, err := b.MarshalBinary()
+	verif_Assert(err == nil && bytes.Equal(againB, encB), "and so for the second value")
+}
